@@ -34,6 +34,25 @@
 (* without leaves is answered InvalidArgument, which is fatal for the pass. *)
 (* So an empty page makes the pass fail loudly; what it must never do is    *)
 (* end the range (PosCovered, Complete).                                    *)
+(*                                                                         *)
+(* The configured range.  A one-shot migration may be given start_index    *)
+(* (cfg.start: -1 = the destination's tree size, otherwise an index: 0,     *)
+(* inside, equal to or beyond the STH) and end_index (cfg.end: 0 = none,    *)
+(* otherwise inside, equal to or beyond the STH).  The property bounds what *)
+(* any configuration may do: "nothing beyond the source tree size it        *)
+(* verified" - so the range of a pass is [Lo, Hi) with Hi never larger than *)
+(* the STH obtained, signature-checked and proven consistent in this pass,  *)
+(* whatever end_index says (RangeWithinSTH).  Named clauses for what the    *)
+(* property leaves open: ContIgnoresRange (continuous mode ignores both     *)
+(* parameters, as the configuration's comment says: it always goes on from  *)
+(* the destination's tree size to the STH), RangeIsTheJob (a one-shot run   *)
+(* copies the configured range only: "no gaps" is demanded inside it).      *)
+(* The source log is not obliged to serve only what its STH covers: its     *)
+(* get-entries end-point serves Served = srcSize + cfg.ahead entries (a     *)
+(* front end whose STH lags behind; growth during the pass does the same).  *)
+(* A migrator that obeys RangeWithinSTH cannot see the difference; one that *)
+(* takes end_index (or a batch boundary) for the end of the tree can: the   *)
+(* instance with Hi <- HiUnclamped must violate Bounded (MCMigrillian).     *)
 (***************************************************************************)
 EXTENDS Naturals, Integers, Sequences, FiniteSets, TLC
 
@@ -49,8 +68,8 @@ Max(a, b) == IF a >= b THEN a ELSE b
 Min(a, b) == IF a <= b THEN a ELSE b
 
 VARIABLES
-  cfg,        \* the scenario (constant along a behaviour): src0, growth, bad, destLen, destInt, batch, fetchers,
-              \*   submitters, cont, start, forked, forkAt, mode ("run" | "master"), faults, restarts
+  cfg,        \* the scenario (constant along a behaviour): src0, growth, ahead, bad, destLen, destInt, batch, fetchers,
+              \*   submitters, cont, start, end, forked, forkAt, mode ("run" | "master"), faults, restarts
   srcSize,    \* current size of the source log
   dest,       \* [Idx -> leaf or None]
   destSize,   \* integrated prefix of the destination
@@ -134,8 +153,18 @@ PrepareSTH ==
         /\ Log([ev |-> "STH", pass |-> pass, size |-> 0, code |-> "ERR"])
   /\ UNCHANGED <<cfg, dest, pipe, envv, restarts, verified, pass>>
 
-FirstIndex == IF cfg.cont THEN Max(root, pos)
+FirstIndex == IF cfg.cont THEN Max(root, pos)                        \* ContIgnoresRange
               ELSE IF cfg.start < 0 THEN root ELSE Max(cfg.start, pos)
+\* the end of the range of this pass: the STH, or an explicit end_index inside it - never beyond it (RangeWithinSTH)
+Hi == IF cfg.cont \/ cfg.end = 0 THEN sth ELSE Min(cfg.end, sth)
+\* what a migrator would do that believes an explicit end_index (refuted: violates Bounded once the source serves more
+\* than its STH covers; used as `Hi <- HiUnclamped` by MigrillianNoClamp.cfg and by the defect step of trace validation)
+HiUnclamped == IF cfg.cont \/ cfg.end = 0 THEN sth ELSE cfg.end
+\* index i belongs to the job the configuration describes (RangeIsTheJob; below the destination's tree size - start -1 -
+\* everything is there already)
+InRange(i) == cfg.cont \/ (i >= cfg.start /\ (cfg.end = 0 \/ i < cfg.end))
+\* what the source's get-entries end-point serves: at least what its STH covers
+Served == srcSize + cfg.ahead
 
 \* the gate: an empty destination root is consistent with everything; otherwise the source must prove it
 Verify ==
@@ -158,8 +187,8 @@ Verify ==
 
 (* ---------- fetcher: range generator and workers ---------- *)
 AssignRange ==
-  /\ pc = "run" /\ gen < sth /\ Cardinality(out) < cfg.fetchers
-  /\ LET e == Min(gen + cfg.batch, sth) - 1 IN
+  /\ pc = "run" /\ gen < Hi /\ Cardinality(out) < cfg.fetchers
+  /\ LET e == Min(gen + cfg.batch, Hi) - 1 IN
        /\ out' = out \cup {[s |-> gen, e |-> e]}
        /\ gen' = e + 1
   /\ UNCHANGED <<cfg, dest, bag, hold, envv, faults, restarts, verified, flags, pass, calls, hist,
@@ -167,10 +196,12 @@ AssignRange ==
 
 Fetch(r) ==
   /\ pc = "run" /\ r \in out /\ Call
-  /\ LET asked == r.e - r.s + 1 IN
-     \/ \E k \in 1..asked :
-          /\ (k < asked) => Has("short")
-          /\ faults' = IF k < asked THEN faults - 1 ELSE faults
+  /\ LET asked == r.e - r.s + 1
+         avail == Min(asked, Served - r.s)      \* a log returns at most what it has (never fewer for a range within its STH)
+     IN
+     \/ \E k \in 1..avail :
+          /\ (k < avail) => Has("short")
+          /\ faults' = IF k < avail THEN faults - 1 ELSE faults
           /\ bag' = bag \cup {[s |-> r.s, n |-> k, u |-> 0]}
           /\ out' = (out \ {r}) \cup (IF k < asked THEN {[s |-> r.s + k, e |-> r.e]} ELSE {})
           /\ Log([ev |-> "Fetch", pass |-> pass, start |-> r.s, end |-> r.e, n |-> k, code |-> "OK"])
@@ -181,6 +212,8 @@ Fetch(r) ==
      \/ /\ Has("fetchErr") /\ faults' = faults - 1            \* the worker asks again
         /\ UNCHANGED <<out, bag>>
         /\ Log([ev |-> "Fetch", pass |-> pass, start |-> r.s, end |-> r.e, n |-> 0, code |-> "ERR"])
+     \/ /\ avail <= 0 /\ UNCHANGED <<out, bag, faults>>       \* no such entry (400): not a fault of the source; the worker
+        /\ Log([ev |-> "Fetch", pass |-> pass, start |-> r.s, end |-> r.e, n |-> 0, code |-> "ERR"])   \* asks again
   /\ UNCHANGED <<cfg, dest, hold, envv, restarts, verified, flags, pass, ctl>>
 
 (* ---------- submitters ---------- *)
@@ -236,7 +269,7 @@ Wake(h) ==
   /\ UNCHANGED <<cfg, dest, out, bag, envv, faults, restarts, verified, flags, pass, calls, hist, ctl>>
 
 PassDone ==
-  /\ pc = "run" /\ why = "" /\ gen = sth /\ out = {} /\ bag = {} /\ hold = {}
+  /\ pc = "run" /\ why = "" /\ gen >= Hi /\ out = {} /\ bag = {} /\ hold = {}
   /\ pc' = "passDone" /\ pos' = sth
   /\ UNCHANGED <<cfg, dest, pipe, envv, faults, restarts, verified, flags, pass, calls, hist, why, result, root, sth, proved, gen>>
 
@@ -365,13 +398,14 @@ QuotaRetried == "quotaAbort" \notin flags
 QuotaAct == [][\A h \in hold : h.st = "wait" =>
                   \/ \E g \in hold' : g.s = h.s /\ g.n = h.n           \* still held: waiting or trying again
                   \/ pc = "unwind"]_vars                                \* or the pass ended for another reason (EndUnwind)
-\* a completed one-shot migration has no gaps: every index below the verified STH is there, unparsable ones included
-Complete == (result = "nil" /\ ~cfg.cont) => \A i \in 0..(sth - 1) : dest[i] # None
-VerbatimBad == (result = "nil" /\ ~cfg.cont) => \A i \in cfg.bad : i < sth => dest[i] \in {SrcLeaf(i), OldLeaf(i)}
+\* a completed one-shot migration has no gaps: every index of the configured range below the verified STH is there,
+\* unparsable ones included
+Complete == (result = "nil" /\ ~cfg.cont) => \A i \in 0..(sth - 1) : InRange(i) => dest[i] # None
+VerbatimBad == (result = "nil" /\ ~cfg.cont) => \A i \in cfg.bad : (i < sth /\ InRange(i)) => dest[i] \in {SrcLeaf(i), OldLeaf(i)}
 \* a pass that reports success leaves no gap (one-shot and continuous alike): the position Run carries into the next
 \* pass - from which it will never look back - has everything below it in the destination.  Short reads, empty pages,
 \* fetch errors and retries may delay a pass or fail it, they never end a range early.
-PosCovered == \A i \in 0..(pos - 1) : dest[i] # None
+PosCovered == \A i \in 0..(pos - 1) : InRange(i) => dest[i] # None
 \* the integrated prefix never runs ahead of what is stored
 PrefixOK == destSize <= Contig
 
